@@ -6,7 +6,7 @@ check("C12", "model_checking",
       "random larger module sets are validated by TLC from the recorded splice events; generated programs split into 2-4 files are "
       "compiled, linked and executed in every file order against the single file, and modules are compiled alone and after an unrelated "
       "module through one Compiler; private items of the SAME name in 2-3 modules (scalar / array / structure / word constants, functions; every way of reading, "
-      "import relation and file order; SameNames.tla computes the exit status) are compiled and executed; the records being evaluated by TLC.",
+      "import relation and file order; SameNames.tla computes the exit status) and imports that are both an exact and a relative path (ImportPaths.tla: which file they bind to, every file order) are compiled and executed; the records being evaluated by TLC.",
       "Trusted: TLC, the rule R in spec/Modules.tla, the renderer, lli as executor. Bound: quick <= 3 modules x 1 declaration, 2 x 2 (import lines at every position, "
       "also written twice) and 4 x 1 with at most one private declaration (code's splice order only), thorough 3 x 2; declarations are "
       "functions, heads, constants, structures/words, every second one extern; all import relations incl. self/mutual; random sets <= 6 "
